@@ -1,7 +1,7 @@
 """C01 - DPOP returns an optimal assignment on every DCOP and schedule (Engine A)."""
 from pv import common, gen, detsched
 
-RULE = ("seeded generator of DCOPs (1-7 vars, domains 1-4, shapes chain/star/tree/cycle/clique/random/"
+RULE = ("seeded generator of DCOPs (1-7 vars, domains 1-4, a third with 5-8 two-valued variables on dense graphs, shapes chain/star/tree/cycle/clique/random/"
         "components/isolated, unary+binary+ternary tables, variable costs, declared initial values in half of the instances, palettes ties/distinct/float/"
         "neg/huge, min and max); every instance run under several random per-channel-FIFO schedules with "
         "biases; non-trivial = >=2 variables sharing a constraint and >=1 UTIL and >=1 VALUE delivered; "
@@ -92,8 +92,13 @@ def worker(job):
     for i in range(job["lo"], job["hi"]):
         rng = common.rng_for(seed, "C01", i)
         palettes = ("ties", "distinct", "float", "neg", "huge", "bigbase") if rng.random() < 0.5 else ("ties", "distinct")
-        case = gen.gen_case(rng, max_vars=7 if tier == "thorough" else 6, max_dom=4 if rng.random() < 0.3 else 3,
-                            palettes=palettes, max_space=3000, initial=rng.random() < 0.5)
+        if rng.random() < 0.35:
+            # larger, denser pseudo-trees (several children, separators of 2-4 ancestors) with small domains
+            case = gen.gen_case(rng, nvars=rng.randint(5, 8), max_dom=2, palettes=palettes, max_space=3000, initial=rng.random() < 0.5,
+                                shapes=("random", "clique", "cycle", "random"), var_costs=rng.random() < 0.5)
+        else:
+            case = gen.gen_case(rng, max_vars=7 if tier == "thorough" else 6, max_dom=4 if rng.random() < 0.3 else 3,
+                                palettes=palettes, max_space=3000, initial=rng.random() < 0.5)
         csig = gen.case_sig(case)
         shared = any(len(c["scope"]) >= 2 for c in case["constraints"])
         cost_style = rng.choice(["dict", "dict", "expr", "func"])
